@@ -39,6 +39,23 @@ def load_findings():
     return json.load(open(p))
 
 
+def native_beyond_known(path, rec, findings, qual, replay_mod):
+    """Run the function's native search when the solvers gave no verdict (undecided obligation / construct outside the subset).
+    Listed findings of the same function are identified here by what the real code does -- the exception class that the
+    function raises on the generated inputs -- because no obligation name is available: the search is told to pass over failures
+    of those classes (and reports that it met them) so that every other kind of failure is still found and reported.
+    -> (native result, listed findings met)"""
+    mine = [f for f in findings if (f.get("unit") or "").split("[")[0] == (qual or "")]
+    excs = sorted({m.group(1) for m in (re.match(r"noexc\.([A-Za-z]+)", f.get("obligation") or "") for f in mine) if m})
+    if excs:
+        rec["known_exceptions"] = excs
+        with open(path, "w") as fh:
+            json.dump(rec, fh, indent=1, default=str)
+    native = replay_mod.try_native(path)
+    met = [f for f in mine if any(("noexc.%s#" % e) in (f.get("obligation") or "") for e in (native.get("known_met") or []))]
+    return native, met
+
+
 def finish(prop, tier, seed, results, reg, table, wall, timeout_ms):
     from pyvc import replay as replay_mod
     findings = [f for f in load_findings().get("findings", []) if f.get("property") == prop]
@@ -126,10 +143,14 @@ def finish(prop, tier, seed, results, reg, table, wall, timeout_ms):
             path = os.path.join(rdir, slug(o["unit"] + "__" + o["name"]) + ".json")
             with open(path, "w") as fh:
                 json.dump(rec, fh, indent=1, default=str)
-            native = replay_mod.try_native(path)
+            native, met = native_beyond_known(path, rec, findings, r.get("qual"), replay_mod)
             rec["native_replay"] = native
             with open(path, "w") as fh:
                 json.dump(rec, fh, indent=1, default=str)
+            for f in met:
+                if f not in known_printed:
+                    known_printed.append(f)
+                    lines.append("KNOWN-FINDING: property=%s %s [%s, found natively]" % (prop, f.get("what", ""), o["unit"]))
             if native.get("reproduced"):
                 rel = os.path.relpath(path, VERIF)
                 lines.append("VIOLATION property=%s replay=%s" % (prop, rel))
@@ -158,10 +179,14 @@ def finish(prop, tier, seed, results, reg, table, wall, timeout_ms):
             path = os.path.join(rdir, slug(r["unit"] + "__unsupported") + ".json")
             with open(path, "w") as fh:
                 json.dump(rec, fh, indent=1, default=str)
-            native = replay_mod.try_native(path)
+            native, met = native_beyond_known(path, rec, findings, r.get("qual"), replay_mod)
             rec["native_replay"] = native
             with open(path, "w") as fh:
                 json.dump(rec, fh, indent=1, default=str)
+            for f in met:
+                if f not in known_printed:
+                    known_printed.append(f)
+                    lines.append("KNOWN-FINDING: property=%s %s [%s, found natively]" % (prop, f.get("what", ""), r["unit"]))
             if native.get("reproduced"):
                 rel = os.path.relpath(path, VERIF)
                 lines.append("VIOLATION property=%s replay=%s" % (prop, rel))
